@@ -125,3 +125,78 @@ def has(root, pattern: str, env0=None) -> bool:
 
 def count(root, pattern: str) -> int:
     return len(find(root, pattern))
+
+
+# -- auto-generalised snippets ------------------------------------------------
+import builtins as _bi
+
+_BUILTINS = set(dir(_bi))
+_auto_cache: dict[str, tuple] = {}
+
+
+def _auto(snippet: str):
+    """Parse ``snippet`` (ordinary Python, no $) and turn every identifier that
+    is a plain variable -- not a builtin, not Capitalised (class/constant), not
+    in call-function position -- into a consistent metavariable.  Attribute
+    names, keyword names, literals and called function names stay literal, so
+    the anchor survives local/parameter renames and reformatting but not a
+    change of the API that is being called."""
+    if snippet in _auto_cache:
+        return _auto_cache[snippet]
+    tree = ast.parse(snippet.strip())
+    funcs = {id(n.func) for n in ast.walk(tree)
+             if isinstance(n, ast.Call) and isinstance(n.func, ast.Name)}
+    for n in ast.walk(tree):
+        if isinstance(n, ast.Name) and id(n) not in funcs \
+                and n.id not in _BUILTINS and not n.id[:1].isupper() \
+                and not n.id.startswith((_MV, _MX)):
+            n.id = _MV + n.id
+        elif isinstance(n, ast.arg) and not n.arg.startswith(_MV):
+            n.arg = _MV + n.arg
+    body = tree.body
+    if len(body) == 1 and isinstance(body[0], ast.Expr):
+        r = ("expr", body[0].value)
+    else:
+        r = ("stmts", body)
+    _auto_cache[snippet] = r
+    return r
+
+
+def tfind(root, snippet: str) -> list[dict]:
+    """like find(), with the snippet auto-generalised by _auto()"""
+    key = "\0auto\0" + snippet
+    if key not in _cache:
+        _cache[key] = _auto(snippet)
+    if root is None:
+        return []
+    if isinstance(root, (list, tuple)):
+        out = []
+        for r in root:
+            out += tfind(r, snippet)
+        return out
+    return find(root, key)
+
+
+def th(root, snippet: str) -> bool:
+    return bool(tfind(root, snippet))
+
+
+def kwarg(root, name: str, value_snippet: str | None = None, func: str | None = None) -> list:
+    """calls under root passing keyword ``name`` (whose value matches the
+    auto-generalised snippet, if given; whose callee's last name component is
+    ``func``, if given)"""
+    out = []
+    for n in ast.walk(root):
+        if not isinstance(n, ast.Call):
+            continue
+        if func is not None:
+            f = n.func
+            fn = f.id if isinstance(f, ast.Name) else f.attr if isinstance(f, ast.Attribute) else None
+            if fn != func:
+                continue
+        for k in n.keywords:
+            if k.arg == name and (value_snippet is None or
+                                  any(e.get("@node") is k.value
+                                      for e in tfind(k.value, value_snippet))):
+                out.append(n)
+    return out
